@@ -96,10 +96,9 @@ def reorderTree (s : St) (old : Array Nat) : ZDD → ZDD
 def innerSubtrees (hs : List ZDD) : List ZDD :=
   (hs.foldl (fun acc t => subtrees t acc) []).filter (fun t => !t.isTerminal)
 
-/-- `Saturating<u64>` / `Saturating<u128>` as used by `sat_count`: `+` saturates; `<< k` is
-`checked_shl(k).unwrap_or(MAX)` (only the shift *amount* is checked: `MAX` if `k ≥ bits`, otherwise
-the bits shifted out are lost); `>> k` keeps the marker `MAX`. `none`: `>> k` with `k ≥ bits`
-(shift overflow panic). -/
+/-- `Saturating<u64>` / `Saturating<u128>` as used by `sat_count`: `+` saturates; `<< k` saturates
+on the value (0 stays 0; otherwise the marker `MAX` iff a one bit would be shifted out); `>> k`
+keeps the marker `MAX`. `none`: `>> k` with `k ≥ bits` (shift overflow panic). -/
 def satCountSat (bits n vars : Nat) (f : ZDD) : Option Nat :=
   let mx := 2 ^ bits - 1
   let add (a b : Nat) : Nat := min (a + b) mx
@@ -110,7 +109,7 @@ def satCountSat (bits n vars : Nat) (f : ZDD) : Option Nat :=
   let c := go f
   if vars ≥ n then
     let k := vars - n
-    some (if k ≥ bits then mx else (c <<< k) % 2 ^ bits)
+    some (if c = 0 then 0 else if c * 2 ^ k < 2 ^ bits then c * 2 ^ k else mx)
   else
     let k := n - vars
     if k ≥ bits then none else some (if c = mx then mx else c >>> k)
@@ -136,13 +135,12 @@ def fmtDyadicExp (c k : Nat) : Option String :=
     | [] => "0"
   some (mant ++ "e" ++ toString e)
 
-/-- `F64`: `<< k` is `x * 2^k` (so `0 << k` is NaN once `2^k` is infinite), `>> k` is `x * 2^-k`.
-The harness prints `ok` when its oracle (only for `vars ≥ n`) accepts the value and the raw value
-otherwise. -/
+/-- `F64`: `<< k` is `x * 2^k` (0 stays 0), `>> k` is `x * 2^-k`. The harness prints `ok` when its
+oracle (only for `vars ≥ n`) accepts the value — which it does for the exact product, infinite or
+not — and the raw value otherwise. -/
 def satCountF64 (n vars : Nat) (f : ZDD) : String :=
   let c := pathCount f
-  if vars ≥ n then
-    if c = 0 ∧ vars - n ≥ 1024 then "f64-mismatch NaN" else "ok"
+  if vars ≥ n then "ok"
   else
     match fmtDyadicExp c (n - vars) with
     | some str => str
